@@ -10,25 +10,45 @@ import vlib
 
 MODULE = os.path.join(vlib.SPEC, "props", "C27.tla")
 SIMCFG = os.path.join(vlib.SPEC, "props", "C27sim.cfg")
-PLAN = {"quick": {"plan": "quick", "sim": "simquick", "nsim": 150, "depth": 42, "tlc_timeout": 200},
-        "thorough": {"plan": "thorough", "sim": "simthorough", "nsim": 1500, "depth": 82, "tlc_timeout": 800}}
+# resource use (the machine is shared): overridable through the environment
+WORKERS = int(os.environ.get("VERIF_TLC_WORKERS", "2"))
+JOBS = int(os.environ.get("VERIF_JOBS", "4"))
+
+
+def enumerate_cases(prop, plan, timeout):
+    """model checking mode: every state a history, maximal ones printed as CASE lines"""
+    res = vlib.tlc(MODULE, env={"PLAN": plan}, workers=WORKERS, xmx="3g", timeout=timeout)
+    vlib.tlc_ok(res, MODULE)
+    return res.cases(), res
+
+
+def simulate_cases(prop, plan, n, seed, depth, timeout):
+    """simulation mode: one JSON file per random history"""
+    outdir = os.path.join(vlib.WORK, prop, "sim")
+    os.makedirs(outdir, exist_ok=True)
+    res = vlib.tlc(MODULE, cfg=SIMCFG, simulate=n, depth=depth, seed=seed, env={"PLAN": plan, "OUTDIR": outdir},
+                   xmx="3g", timeout=timeout)
+    vlib.tlc_ok(res, MODULE)
+    return vlib.load_case_files(outdir), res
+
+PLAN = {"quick": {"plan": "quick", "sim": "simquick", "nsim": 100, "depth": 42, "tlc_timeout": 200},
+        "thorough": {"plan": "thorough", "sim": "simthorough", "nsim": 800, "depth": 82, "tlc_timeout": 800}}
 
 
 def run(prop, tier, seed):
     rep = vlib.Report(prop, tier, seed, "model_checking")
     wd = vlib.workdir(prop)
     plan = PLAN[tier]
-    cases, res = vlib.gen_enumerate(prop, MODULE, env={"PLAN": plan["plan"]}, workers=8, timeout=plan["tlc_timeout"])
+    cases, res = enumerate_cases(prop, plan["plan"], plan["tlc_timeout"])
     if not cases:
         raise vlib.ToolError("no cases from TLC")
     n_enum = len(cases)
-    sims, sres = vlib.gen_simulate(prop, MODULE, plan["nsim"], seed, env={"PLAN": plan["sim"]}, depth=plan["depth"],
-                                   cfg=SIMCFG, timeout=plan["tlc_timeout"])
+    sims, sres = simulate_cases(prop, plan["sim"], plan["nsim"], seed, plan["depth"], plan["tlc_timeout"])
     cases += sims
     if len({c["id"] for c in cases}) != len(cases):
         raise vlib.ToolError("duplicate case ids")
 
-    obs, hwall = vlib.run_harness(cases, wd, jobs=14)
+    obs, hwall = vlib.run_harness(cases, wd, jobs=JOBS)
     not_compiled = agree = 0
     for c, o in zip(cases, obs):
         if o.get("compile") != "ok":
